@@ -42,7 +42,16 @@ static void fdump_pub(FILE *f, cif_value_tp *v) {
     case CIF_CHAR_KIND:
     case CIF_NUMB_KIND:
         fprintf(f, "%c%d:", cif_value_kind(v) == CIF_CHAR_KIND ? 'C' : 'M', cif_value_is_quoted(v) == CIF_QUOTED ? 1 : 0);
-        if (cif_value_get_text(v, &t) == CIF_OK) { fhex(f, t); free(t); } else fprintf(f, "!");
+        if (cif_value_get_text(v, &t) == CIF_OK) {
+            size_t tl = (size_t) u_strlen(t);
+            if (tl > 2000) {           /* very long texts: length and a hash (FNV-1a over the units) instead of the hex text */
+                unsigned long long hsh = 1469598103934665603ULL;
+                size_t q;
+                for (q = 0; q < tl; q++) { hsh ^= (unsigned long long) t[q]; hsh *= 1099511628211ULL; }
+                fprintf(f, "#%zu:%016llx", tl, hsh);
+            } else fhex(f, t);
+            free(t);
+        } else fprintf(f, "!");
         if (cif_value_kind(v) == CIF_NUMB_KIND) {
             fprintf(f, "#"); if (cif_value_get_number(v, &d) == CIF_OK) fdouble(f, d); else fprintf(f, "!");
             fprintf(f, "#"); if (cif_value_get_su(v, &d) == CIF_OK) fdouble(f, d); else fprintf(f, "!");
@@ -128,6 +137,191 @@ static cif_packet_tp *key_packet(int n) {
     return p;
 }
 
+/* ---- route `bigparse`: a very long string value read by the parser ------------------------------------------------
+   storeval bigparse <len> <t|q> <seed>
+   The executor renders the document itself: a CIF 2.0 header, data_b, three short items (so that the long token does not
+   start at offset 0 of the scan buffer), then `_x` with a value of <len> units — as a text field (lines of 1000 units) or
+   as one apostrophe-quoted string — then one more short item.  The characters depend on their position, so a shifted or
+   stale copy of part of the value is noticed.  Over-length lines are reported through the error callback, which lets
+   the parse go on (cif_parse_error_ignore).
+   -> sv rc=<parse rc> o=<expected> g=<get_value> i=<iteration> w=<walk> m=<same|differ at <index>> */
+static void big_parse(int argc, char **argv) {
+    size_t len, i, k = 0;
+    int style, rc, r2, first = 1;
+    unsigned long long st;
+    UChar *expect;
+    char *doc;
+    FILE *f;
+    struct cif_parse_opts_s *opts = NULL;
+    cif_tp *cif = NULL;
+    cif_block_tp *b = NULL;
+    cif_value_tp *ov = NULL, *g = NULL;
+    cif_loop_tp *loop = NULL;
+    cif_pktitr_tp *it = NULL;
+    char *wtext = NULL;
+    size_t wsz = 0;
+    if (argc != 5) { OUT("bad-op"); return; }
+    len = strtoul(argv[2], NULL, 10);
+    style = argv[3][0];
+    st = strtoull(argv[4], NULL, 10) * 2862933555777941757ULL + 3037000493ULL;
+    if (len < 1 || len > 400000 || (style != 't' && style != 'q')) { OUT("bad-op"); return; }
+    expect = (UChar *) malloc((len + 1) * sizeof(UChar));
+    doc = (char *) malloc(len + 400);
+    k += (size_t) sprintf(doc + k, "#\\#CIF_2.0\ndata_b\n_a1 short\n_a2 'two words'\n_a3 12.5(3)\n_x ");
+    if (style == 't') { doc[k++] = '\n'; doc[k++] = ';'; } else doc[k++] = '\'';
+    for (i = 0; i < len; i++) {
+        UChar c;
+        if (style == 't' && i % 1000 == 999) c = '\n';
+        else {
+            st = st * 6364136223846793005ULL + 1442695040888963407ULL;
+            c = (UChar) ("abcdefghijklmnopqrstuvwxyzABCDEFGHIJKLMNOPQRSTUVWXYZ0123456789"[(st >> 33) % 62]);
+            if (style == 't' && (i % 1000 == 0) && c == ';') c = 'x';
+        }
+        expect[i] = c;
+        doc[k++] = (char) c;
+    }
+    if (style == 't' && expect[len - 1] == '\n') { expect[len - 1] = 'z'; doc[k - 1] = 'z'; }
+    expect[len] = 0;
+    if (style == 't') { doc[k++] = '\n'; doc[k++] = ';'; } else doc[k++] = '\'';
+    k += (size_t) sprintf(doc + k, "\n_z end\n");
+    f = tmpfile();
+    fwrite(doc, 1, k, f);
+    fflush(f); rewind(f);
+    free(doc);
+    rc = cif_parse_options_create(&opts);
+    if (rc == CIF_OK) {
+        opts->error_callback = cif_parse_error_ignore;
+        rc = cif_parse(f, opts, &cif);
+    }
+    fclose(f);
+    free(opts);
+    if (rc == CIF_OK) rc = cif_get_block(cif, CODE_B, &b);
+    (void) cif_value_create(CIF_UNK_KIND, &ov);
+    (void) cif_value_copy_char(ov, expect);
+    OUT("sv rc=%d o=", rc); fdump_pub(stdout, ov);
+    cif_value_free(ov);
+    if (rc == CIF_OK) {
+        cif_handler_tp handler;
+        walk_ctx ctx;
+        r2 = cif_container_get_value(b, NAME_X, &g);
+        OUT(" g="); if (r2 == CIF_OK) fdump_pub(stdout, g); else OUT("!%d", r2);
+        OUT(" i=");
+        r2 = cif_container_get_item_loop(b, NAME_X, &loop);
+        if (r2 == CIF_OK) r2 = cif_loop_get_packets(loop, &it);
+        if (r2 == CIF_OK) {
+            cif_packet_tp *cur = NULL;
+            while ((r2 = cif_pktitr_next_packet(it, &cur)) == CIF_OK) {
+                cif_value_tp *x = NULL;
+                if (!first) OUT(",");
+                first = 0;
+                if (cif_packet_get_item(cur, NAME_X, &x) == CIF_OK) fdump_pub(stdout, x); else OUT("!noitem");
+            }
+            if (r2 != CIF_FINISHED) OUT("!iter%d", r2);
+            (void) cif_pktitr_close(it);
+            if (cur) cif_packet_free(cur);
+        } else OUT("!%d", r2);
+        if (loop) cif_loop_free(loop);
+        memset(&handler, 0, sizeof(handler));
+        handler.handle_item = on_item;
+        ctx.out = open_memstream(&wtext, &wsz); ctx.count = 0;
+        r2 = cif_walk(cif, &handler, &ctx);
+        fclose(ctx.out);
+        OUT(" w=%s", wtext);
+        if (r2 != CIF_OK) OUT("!walk%d", r2);
+        free(wtext);
+        OUT(" m=");
+        if (g && cif_value_kind(g) == CIF_CHAR_KIND) {
+            UChar *t = NULL;
+            if (cif_value_get_text(g, &t) == CIF_OK && t) {
+                size_t tl = (size_t) u_strlen(t), d;
+                for (d = 0; d < len && d < tl && t[d] == expect[d]; d++) ;
+                if (d == len && tl == len) OUT("same"); else OUT("differ-at-%zu-len-%zu", d, tl);
+                free(t);
+            } else OUT("notext");
+        } else OUT("nochar");
+    }
+    if (g) cif_value_free(g);
+    if (b) cif_container_free(b);
+    if (cif) cif_destroy(cif);
+    free(expect);
+}
+
+/* ---- route `itsession`: several updates through one packet iterator, one of them rejected ---------------------------
+   storeval itsession 0 <value tokens>
+   Block b holds loop A (_k, _x) with three packets (x unknown) and loop B (_y) with one packet.  One iterator over loop A:
+   packet 1: update _x := v (must succeed); packet 2: update with a packet that carries _y, an item of loop B (must be
+   rejected — CIF_WRONG_LOOP — and leave nothing behind); packet 3: update _x := v (must succeed); close.
+   -> sv rc=<close rc> u=<rc1>,<0 or rej>,<rc3> o=<v> i=<x of packet 1>,<x of packet 2>,<x of packet 3> m=<field-level dumps> */
+static void iter_session(int argc, char **argv) {
+    static UChar NAME_Y[] = { '_', 'y', 0 };
+    UChar *namesA[] = { NAME_K, NAME_X, NULL }, *namesB[] = { NAME_Y, NULL };
+    cif_tp *cif = NULL;
+    cif_block_tp *b = NULL;
+    cif_loop_tp *la = NULL, *lb = NULL;
+    cif_value_tp *v = NULL;
+    cif_packet_tp *pkt = NULL, *cur = NULL, *upd = NULL;
+    cif_pktitr_tp *it = NULL;
+    char *otext = NULL, *mtext = NULL;
+    size_t osz = 0, msz = 0;
+    FILE *m, *mm;
+    int pos = 3, brc, rc, n, u[3] = { -1, -1, -1 }, first = 1;
+    while (pos < argc && argv[pos][0] == '@') pos++;
+    v = build_value(argv, argc, &pos, &brc);
+    if (v == NULL || pos != argc) { if (v) cif_value_free(v); OUT("bad-op"); return; }
+    m = open_memstream(&otext, &osz); fdump_pub(m, v); fclose(m);
+    rc = cif_create(&cif);
+    if (rc == CIF_OK) rc = cif_create_block(cif, CODE_B, &b);
+    if (rc == CIF_OK) rc = cif_container_create_loop(b, NULL, namesA, &la);
+    for (n = 1; rc == CIF_OK && n <= 3; n++) { pkt = key_packet(n); rc = pkt ? cif_loop_add_packet(la, pkt) : CIF_ERROR; cif_packet_free(pkt); pkt = NULL; }
+    if (rc == CIF_OK) rc = cif_container_create_loop(b, NULL, namesB, &lb);
+    if (rc == CIF_OK) {
+        rc = cif_packet_create(&pkt, NULL);
+        if (rc == CIF_OK) rc = cif_packet_set_item(pkt, NAME_Y, NULL);
+        if (rc == CIF_OK) rc = cif_loop_add_packet(lb, pkt);
+        cif_packet_free(pkt); pkt = NULL;
+    }
+    if (rc != CIF_OK) { OUT("sv setup-failed"); goto done; }
+    rc = cif_loop_get_packets(la, &it);
+    for (n = 0; rc == CIF_OK && n < 3; n++) {
+        rc = cif_pktitr_next_packet(it, &cur);
+        if (rc != CIF_OK) break;
+        if (cif_packet_create(&upd, NULL) != CIF_OK) { rc = CIF_ERROR; break; }
+        if (n == 1) (void) cif_packet_set_item(upd, NAME_Y, v);      /* an item of the other loop */
+        else (void) cif_packet_set_item(upd, NAME_X, v);
+        u[n] = cif_pktitr_update_packet(it, upd);
+        cif_packet_free(upd); upd = NULL;
+    }
+    if (it) { int c = cif_pktitr_close(it); if (rc == CIF_OK || rc == CIF_FINISHED) rc = c; it = NULL; }
+    if (cur) { cif_packet_free(cur); cur = NULL; }
+    /* the caller's object is changed and released before anything is read back */
+    mutate(v, 2);
+    cif_value_free(v); v = NULL;
+    OUT("sv rc=%d u=%d,%s,%d o=%s i=", rc, u[0], u[1] == 0 ? "0" : (u[1] < 0 ? "none" : "rej"), u[2], otext);
+    mm = open_memstream(&mtext, &msz);
+    if (cif_loop_get_packets(la, &it) == CIF_OK) {
+        int r2;
+        while ((r2 = cif_pktitr_next_packet(it, &cur)) == CIF_OK) {
+            cif_value_tp *x = NULL;
+            if (!first) { OUT(","); fprintf(mm, ","); }
+            first = 0;
+            if (cif_packet_get_item(cur, NAME_X, &x) == CIF_OK) { fdump_pub(stdout, x); fdumpx_value(mm, x); } else { OUT("!noitem"); fprintf(mm, "!"); }
+        }
+        if (r2 != CIF_FINISHED) OUT("!iter%d", r2);
+        (void) cif_pktitr_close(it); it = NULL;
+        if (cur) cif_packet_free(cur);
+    } else OUT("!nopackets");
+    fclose(mm);
+    OUT(" m=%s", mtext);
+done:
+    if (v) cif_value_free(v);
+    if (la) cif_loop_free(la);
+    if (lb) cif_loop_free(lb);
+    if (b) cif_container_free(b);
+    if (cif) cif_destroy(cif);
+    free(otext);
+    free(mtext);
+}
+
 static void handle(int argc, char **argv) {
     cif_tp *cif = NULL, *scratch = NULL;
     cif_block_tp *b = NULL;
@@ -144,6 +338,8 @@ static void handle(int argc, char **argv) {
 
     if (argc < 4) { OUT("bad-op"); return; }
     route = argv[1];
+    if (strcmp(route, "bigparse") == 0) { big_parse(argc, argv); return; }
+    if (strcmp(route, "itsession") == 0) { iter_session(argc, argv); return; }
     mode = atoi(argv[2]);
     while (pos < argc && argv[pos][0] == '@') pos++;           /* key normalisation pairs: for the model only */
     v = build_value(argv, argc, &pos, &brc);
